@@ -47,6 +47,9 @@ def run(repo: Repo, tier: str, res: CheckResult, seed: int = 0) -> None:
     recipe_specific_before_general(repo, res)
     io_dumper_rewinds(repo, res)
     whole_fraction_split(repo, res)
+    regex_loader_takes_str_only(repo, res)
+    newtype_delegates_one_level(repo, res)
+    alias_arguments_by_alias_parameters(repo, res)
     res.assumptions = list(ASSUMPTIONS)
 
 
@@ -723,3 +726,77 @@ def whole_fraction_split(repo: Repo, res: CheckResult) -> None:
                                     "value the dumper emitted (2.3) is loaded as 2.299999; the scaled fraction has to be rounded",
                                     call.lineno))
     res.count("SPLIT.sites", n, 1)
+
+
+def regex_loader_takes_str_only(repo: Repo, res: CheckResult) -> None:
+    """re.Pattern is loaded from a STRING (documented). re.compile itself also takes bytes and compiled patterns, so the loader
+    has to test the type before it calls the constructor -- translating the constructor's TypeError is not enough."""
+    m = repo.mod(CP)
+    ci = m.classes.get("RegexPatternProvider")
+    fn = ci.methods.get("_make_loader") if ci is not None else None
+    if fn is None:
+        raise AnalysisError("anchor vanished: RegexPatternProvider._make_loader")
+    closures = [f for f in ast.walk(fn) if isinstance(f, ast.FunctionDef) and f is not fn]
+    if len(closures) != 1:
+        raise AnalysisError("RegexPatternProvider._make_loader: expected one loader closure")
+    cl = closures[0]
+    d = func_params(cl)[0]
+    res.evaluated("regex:str-guard", True)
+    rets = [r for r in ast.walk(cl) if isinstance(r, ast.Return) and r.value is not None]
+    guards = [i for i in cl.body if isinstance(i, ast.If) and any(isinstance(x, ast.Raise) for x in i.body) and not i.orelse
+              and norm(i.test) in (f"not isinstance({d}, str)", f"type({d}) is not str", f"type({d}) != str")]
+    for r in rets:
+        g = {"str"} if any(gi.lineno < r.lineno for gi in guards) else set()
+        if g != {"str"}:
+            res.add(Finding("C02", "REGEX.accepts-more-than-str", m.rel, f"RegexPatternProvider._make_loader.{cl.name}", norm(r)[:80],
+                            f"`{norm(r)[:60]}` is reached without a test that the datum is a str (guard: {sorted(g) if g else 'none'}): "
+                            "re.compile also accepts bytes and compiled patterns, so b'\\d+' and re.compile('x') are loaded although "
+                            "the documented representation is a string", r.lineno))
+
+
+def newtype_delegates_one_level(repo: Repo, res: CheckResult) -> None:
+    """A NewType shares the loader and dumper of its origin type INCLUDING user providers for it: the delegation has to go
+    to the direct supertype (one level per request), so that a provider registered for an intermediate NewType of a chain
+    (Price -> Cents -> int) is found. Unwrapping the whole chain at once skips it."""
+    m = repo.mod("morphing/generic_provider")
+    ci = m.classes.get("NewTypeUnwrappingProvider")
+    fn = ci.methods.get("get_delegated_type") if ci is not None else None
+    if fn is None:
+        raise AnalysisError("anchor vanished: NewTypeUnwrappingProvider.get_delegated_type")
+    res.evaluated("newtype:one-level", True)
+    loops = [x for x in ast.walk(fn) if isinstance(x, (ast.While, ast.For)) and "__supertype__" in norm(x)]
+    rets = [r for r in ast.walk(fn) if isinstance(r, ast.Return) and r.value is not None]
+    deep = [r for r in rets if norm(r.value).count("__supertype__") > 1]
+    if loops or deep:
+        node = (loops or deep)[0]
+        res.add(Finding("C02", "NEWTYPE.chain-unwrapped-at-once", m.rel, "NewTypeUnwrappingProvider.get_delegated_type", norm(node)[:80].split("\n")[0],
+                        "the NewType chain is followed to its end in one step: the request is delegated to the final supertype and the "
+                        "recipe is never asked for the intermediate NewTypes, so `loader(Cents, ...)` is skipped for "
+                        "Price = NewType('Price', Cents)", node.lineno))
+
+
+def alias_arguments_by_alias_parameters(repo: Repo, res: CheckResult) -> None:
+    """`type Swap[A, B] = dict[B, A]`: Swap[str, int] is dict[int, str]. The value's own __parameters__ are ordered by first
+    appearance in the value, so subscripting the value with the alias arguments positionally binds them to the wrong
+    variables; the arguments have to be matched with the alias's type parameters."""
+    m = repo.mod("morphing/generic_provider")
+    ci = m.classes.get("TypeAliasUnwrappingProvider")
+    fn = ci.methods.get("get_delegated_type") if ci is not None else None
+    if fn is None:
+        raise AnalysisError("anchor vanished: TypeAliasUnwrappingProvider.get_delegated_type")
+    res.evaluated("alias:arguments-by-alias-parameters", True)
+    # names bound from an expression over the alias's own type parameters, transitively
+    derived: set = set()
+    for _ in range(3):
+        for st in ast.walk(fn):
+            if isinstance(st, ast.Assign) and len(st.targets) == 1 and isinstance(st.targets[0], ast.Name):
+                t = norm(st.value)
+                if "type_params" in t or any(isinstance(n, ast.Name) and n.id in derived for n in ast.walk(st.value)):
+                    derived.add(st.targets[0].id)
+    subs = [x for x in ast.walk(fn) if isinstance(x, ast.Subscript) and norm(x.value).endswith(".value")]
+    by_alias = [x for x in subs if "type_params" in norm(x.slice) or any(isinstance(n, ast.Name) and n.id in derived for n in ast.walk(x.slice))]
+    if subs and not by_alias:
+        res.add(Finding("C02", "UNWRAP.alias-arguments-positional", m.rel, "TypeAliasUnwrappingProvider.get_delegated_type", norm(subs[0])[:80],
+                        f"`{norm(subs[0])[:60]}` subscripts the VALUE of the alias with the arguments of the alias: the value's parameters "
+                        "are in order of first appearance (dict[B, A] -> (B, A)), so Swap[str, int] with `type Swap[A, B] = dict[B, A]` "
+                        "is processed as dict[str, int]", subs[0].lineno))
